@@ -10,6 +10,7 @@ import (
 	"path/filepath"
 	"sort"
 	"strings"
+	"syscall"
 
 	"github.com/FollowTheProcess/spok/file"
 	"github.com/FollowTheProcess/spok/iostream"
@@ -55,12 +56,12 @@ type Step struct {
 	keep **file.SpokFile
 	// Cwd (run steps): the working directory of the process while spok runs — one of three scratch
 	// directories beside the project. Where spok is started from has no bearing on the project's cache.
-	Cwd     int            `json:"cwd,omitempty"`
-	Op      string         `json:"op"` // write revert delete swap run rmcache
-	File    string         `json:"file,omitempty"`
+	Cwd  int    `json:"cwd,omitempty"`
+	Op   string `json:"op"` // write revert delete swap run rmcache
+	File string `json:"file,omitempty"`
 	// File2 (swap): the two names exchange what they refer to (mv a tmp; mv b a; mv tmp b) - two regular
 	// files, or two symbolic links that thereby exchange their targets
-	File2 string `json:"file2,omitempty"`
+	File2   string         `json:"file2,omitempty"`
 	Content string         `json:"content,omitempty"`
 	Tasks   []string       `json:"tasks,omitempty"`
 	Force   bool           `json:"force,omitempty"`
@@ -69,6 +70,9 @@ type Step struct {
 	// Abort: tasks whose first command makes the runner itself return an error (what a command
 	// that is not valid shell syntax does), so that the whole run stops with an error at that task.
 	Abort []string `json:"abort,omitempty"`
+	// Busy/BusyErr (graph cases): see GraphCase.Busy
+	Busy    []string `json:"busy,omitempty"`
+	BusyErr string   `json:"busy_err,omitempty"`
 }
 
 // CacheCase is a program, an initial tree and a history.
@@ -128,10 +132,26 @@ type recorder struct {
 	// onStart is called when the first command of a task runs (side effects, snapshots)
 	onStart func(task string)
 	abort   map[string]bool
+	// busy: tasks whose second command cannot be started at the first attempt (busyErr); first counts
+	// how often a task's first command text was run; busied: the error was handed out
+	busy    map[string]bool
+	busyErr error
+	first   map[string]int
+	busied  bool
+	tried   map[string]bool
 }
 
 func (r *recorder) Run(cmd string, _ iostream.IOStream, taskName string, _ []string) (shell.Result, error) {
 	idx := r.count[taskName]
+	if r.busy[taskName] {
+		if strings.HasSuffix(cmd, " 0") {
+			r.first[taskName]++
+		} else if !r.tried[taskName] {
+			r.tried[taskName], r.busied = true, true
+			r.calls = append(r.calls, call{task: taskName, status: -2})
+			return shell.Result{}, &os.PathError{Op: "fork/exec", Path: "./tool", Err: r.busyErr}
+		}
+	}
 	r.count[taskName]++
 	if idx == 0 && r.onStart != nil {
 		r.onStart(taskName)
@@ -227,7 +247,14 @@ type runResult struct {
 }
 
 func doRun(root, src string, st Step, onStart ...func(string)) runResult {
-	rec := &recorder{count: map[string]int{}, fail: st.Fail, abort: map[string]bool{}}
+	rec := &recorder{count: map[string]int{}, fail: st.Fail, abort: map[string]bool{}, busy: map[string]bool{}, first: map[string]int{}, tried: map[string]bool{}}
+	for _, n := range st.Busy {
+		rec.busy[n] = true
+	}
+	rec.busyErr = map[string]error{"ETXTBSY": syscall.ETXTBSY, "EAGAIN": syscall.EAGAIN, "EINTR": syscall.EINTR, "EMFILE": syscall.EMFILE}[st.BusyErr]
+	if rec.busyErr == nil {
+		rec.busyErr = syscall.ETXTBSY
+	}
 	for _, a := range st.Abort {
 		rec.abort[a] = true
 	}
